@@ -550,6 +550,21 @@ fn gen_ops(rng: &mut Rng) -> Vec<Value> {
     let max_objects = 4 + rng.usize(13);
     let mut ops: Vec<Value> = Vec::new();
     let mut objects = 0usize;
+    // one sequence in eight starts with a large population (crosses the mark bitmap's word
+    // boundaries at 64, 128, ... managed objects), a third of it rooted
+    if rng.chance(1, 8) {
+        let n = 50 + rng.usize(160);
+        for i in 0..n {
+            match rng.below(3) {
+                0 => ops.push(json!(["float", i as f64 / 4.0])),
+                1 => ops.push(json!(["str", "bulk"])),
+                _ => ops.push(json!(["arr", [rng.below(1 << 20), Value::Null]])),
+            }
+            if rng.chance(1, 3) {
+                ops.push(json!(["root", rng.below(1 << 20)]));
+            }
+        }
+    }
     // swarm weights
     let w_alloc = 2 + rng.below(6) as u32;
     let w_link = rng.below(6) as u32;
